@@ -18,5 +18,61 @@ def cases(rng, tier):
     return out
 
 
+T32_GROUPS = [
+    ('t32_move_shift', 'thumb_move_register_and_immediate_shifts', 'dec_thumb_move_register_and_immediate_shifts', 't32_mvsh_table', 'no_env'),
+    ('t32_dp_shifted_register', 'thumb_data_processing_shifted_register', 'dec_thumb_data_processing_shifted_register', 't32_dpsr_table', 't32_dpsr_env'),
+    ('t32_dp_modified_immediate', 'thumb_data_processing_modified_immediate', 'dec_thumb_data_processing_modified_immediate', 't32_dpmi_table', 'no_env'),
+    ('t32_plain_binary_immediate', 'thumb_data_processing_plain_binary_immediate', 'dec_thumb_data_processing_plain_binary_immediate', 't32_pbi_table', 'no_env'),
+]
+
+
+def t32_rows(table):
+    import os, re
+    src = open(os.path.join(C.VERIF, 'coq', 'theories', 'Spec', 'DecTablesT32.v')).read()
+    i = src.index(f'Definition {table} ')
+    body = src[i:src.index('].', i)]
+    return [re.sub(r'\s', '', m) for m in re.findall(r'row "([01x ]+)"', body)]
+
+
+def t32_cases(rng, tier):
+    """32-bit Thumb class selection of the proved groups: every table row, its one-bit neighbours, random members"""
+    out = []
+    n = 100 if tier == 'quick' else 5000
+    for (label, module, fn, table, env) in T32_GROUPS:
+        words = []
+        for pat in t32_rows(table):
+            assert len(pat) == 32, (table, pat)
+            for rep in range(3 if tier == 'quick' else 40):
+                w = 0
+                for ch in pat:
+                    w = (w << 1) | (int(ch) if ch in '01' else rng.getrandbits(1))
+                words.append(w)
+                if rep == 0:
+                    for k, ch in enumerate(pat):
+                        if ch in '01':
+                            words.append(w ^ (1 << (31 - k)))
+        words += [rng.getrandbits(32) for _ in range(n)]
+        for w in words:
+            model = f'(match {fn} {w} with Some c => [0; 1; c] | None => [0; 0] end)'
+            spec = f'(enc_leaf_opt (lookup {table} (LRet None) {w}) {env} {w})'
+            out.append({'impl': {'kind': 'decode', 'module': module, 'instr': w}, 'model': model, 'spec': spec,
+                        'label': label, 'nontrivial': True})
+    return out
+
+
+def operand_cases(rng, tier):
+    import opgen
+    return opgen.operand_cases(rng, tier, False)
+
+
+OP_IMPORTS = 'From Gen Require Import enums bits_ops shift opsyn core conc.'
+OP_SPEC_IMPORTS = 'From ArmV Require Import Spec.Pseudocode.'
+
+
 def units():
-    return [Unit('thumb16', ['C07_thumb16'], ['Proofs/Cube.v', 'Proofs/DecodeReify.v', 'Proofs/DecThumb16.v'], [], cases, IMPORTS, SPEC_IMPORTS)]
+    return [Unit('thumb16', ['C07_thumb16'], ['Proofs/Cube.v', 'Proofs/DecodeReify.v', 'Proofs/DecThumb16.v'], [], cases, IMPORTS, SPEC_IMPORTS),
+            Unit('thumb32_groups', ['C07_thumb32_top', 'C07_thumb32_move_shift', 'C07_thumb32_dp_shifted_register',
+                                    'C07_thumb32_dp_modified_immediate', 'C07_thumb32_plain_binary_immediate'],
+                 ['Proofs/Cube.v', 'Proofs/DecodeReify.v', 'Proofs/DecThumb32.v'], [], t32_cases, IMPORTS,
+                 SPEC_IMPORTS + '\nFrom ArmV Require Import Spec.DecTablesT32.'),
+            Unit('operands', [], [], [], operand_cases, OP_IMPORTS, OP_SPEC_IMPORTS)]
